@@ -463,14 +463,17 @@ def rule_shapes(ctx):
         ctx.ob('C06.shapes', f'{fq}:bundle-head-types', enc_types <= got,
                f'encoder accepts nested bundles headed by {sorted(enc_types)}, predictor only {sorted(got)}', f.node, f.module)
     f = ctx.repo.func('sc3.base.netaddr:NetAddr._calc_msg_dgram_size')
+    lp_ = [s for s in f.node.body if isinstance(s, ast.For)]
+    ctx.require(len(lp_) == 1, 'C06.shapes', 'predictor argument loop not bound')
+    val = norm(lp_[0].target)
     lb = None
     for s in walk_local(f.node):
-        if isinstance(s, ast.If) and norm(s.test) == 'isinstance(val, list)':
+        if isinstance(s, ast.If) and norm(s.test) == f'isinstance({val}, list)':
             lb = s
     ctx.require(lb is not None, 'C06.shapes', 'predictor list branch not bound')
     src = ' '.join(norm(s) for s in lb.body)
-    ctx.ob('C06.shapes', f'{f.fq}:list:empty', 'if not val' in src, 'encoder sends [] as 0; predictor must accept it', lb, f.module)
-    ctx.ob('C06.shapes', f'{f.fq}:list:bundle-blob', '_calc_bndl_dgram_size(val[1:])' in src,
+    ctx.ob('C06.shapes', f'{f.fq}:list:empty', f'if not {val}' in src, 'encoder sends [] as 0; predictor must accept it', lb, f.module)
+    ctx.ob('C06.shapes', f'{f.fq}:list:bundle-blob', f'_calc_bndl_dgram_size({val}[1:])' in src,
            'encoder accepts bundle-shaped completion messages; predictor must size them', lb, f.module)
 
 
@@ -534,3 +537,8 @@ MUTANTS = [
 ]
 
 REPAIRS = []
+
+EQUIV = [
+    dict(name='rename locals of _clump_bundle', file='sc3/base/netaddr.py', start='    def _clump_bundle(self', end='    def _calc_bndl_dgram_size', rename=[('acc_size', 'total'), ('elist', 'sized'), ('clump', 'chunk')]),
+    dict(name='rename locals of _calc_msg_dgram_size', file='sc3/base/netaddr.py', start='    def _calc_msg_dgram_size(self, msg):', end='    @staticmethod\n    def _strpad4', rename=[('val', 'item')]),
+]
